@@ -631,7 +631,7 @@ func reifySliceMerge(
 		ol := old.Len()
 
 		switch arrMergeCfg {
-		case cfgReplaceValue:
+		case cfgReplaceValue, cfgArrReplaceValue:
 			// the old entries are dropped, new entries must not be merged into them
 			withOld = false
 
